@@ -294,6 +294,15 @@ def run(tier, seed):
                          "pct_depth": depth, "schedule_dir": sched_dir, "cases": small[lo:lo + chunk * 2]})
     log(f"[C15] simulated tier: {len(cases)} scripts ({n_enum} enumerated + {n_rand} seeded), {len(reqs)} batches")
     res = run_requests(reqs, timeout=1800, progress=50)
+    # determinism self-check: the first batches again, each in a fresh process
+    pick = reqs[-(2 if quick else 8):]  # the cheap batches (small bindings, PCT)
+    again = run_requests(pick, timeout=1800, workers=1)
+    det = lambda r: json.dumps([r.get("executions"), r.get("distinct_interleavings"), r.get("stats"),
+                                [f.get("message") for f in r.get("failures", [])]], sort_keys=True)
+    bad_self = sum(1 for x, y in zip(res[-len(pick):], again) if det(x) != det(y))
+    if bad_self:
+        out.harness_errors.append(f"determinism self-check: {bad_self} simulated batches differ when run again")
+    log(f"[C15] determinism self-check: {len(again)} batches run twice, {bad_self} differ")
     executions = 0
     distinct = 0
     stats = {}
@@ -360,6 +369,7 @@ def run(tier, seed):
         "real_rustfmt_used": have_rustfmt,
         "fault_kinds_fired": fired,
         "schedulers": ["shuttle RandomScheduler", "shuttle PctScheduler"],
+        "determinism_selfcheck": {"batches_run_twice": len(again), "differing": bad_self},
         "runs_per_hour": int((executions + len(rcases)) / hours),
         "simulated_time": "no clock; simulated time is pipe events (pipe_events)",
         "real_vs_stub": {"Bindings::write / format_tokens": "real", "Command/Child/pipes/writer thread": "stub under "
